@@ -9,6 +9,7 @@ CONSTANTS
   EventShapes <- ES_two
   EvNames <- N2
   Listeners <- L2
+  SubmitKinds <- K2
   Loose = FALSE
   Dev <- NoDev
 INVARIANT TypeOK
